@@ -15,15 +15,25 @@
 (* Create exactly once per incarnation and never for entries that existed  *)
 (* when the directory was added.                                           *)
 (* FIX_CLOSE / FIX_BYUSER describe the two repaired defects.               *)
+(* Descriptors follow the vnode they were opened on (vn = incarnation), so *)
+(* an entry renamed inside D keeps raising notes on the descriptor that    *)
+(* the tables still know under the old name until the reader handles the   *)
+(* rename.  Covered (C18): when the stream is drained every entry of a     *)
+(* watched D has a descriptor on its current vnode under its current name. *)
+(* USER_RENAMES admits renames inside D; RECHECK_ON_RENAME is the repair   *)
+(* D9 ("renamed name re-used", see DESIGN): after a Rename the reader      *)
+(* looks at the old name again, as the Remove branch always did.           *)
 (***************************************************************************)
 EXTENDS Integers, Sequences, FiniteSets, TLC, SequencesExt
 
 CONSTANTS Names, MaxSteps, FIX_CLOSE, FIX_BYUSER,
           USER_NESTS,            \* the user may watch both D and its entry D/x (they share one descriptor: known finding)
+          USER_RENAMES,          \* entries may be renamed inside D (onto a free or a used name)
+          RECHECK_ON_RENAME,     \* D9 repaired: the reader re-checks the old name after a Rename as it does after a Remove
           USER_REMOVES_ENTRIES   \* the user may call Remove on an entry of a watched directory that was never added (known finding, see DESIGN)
 
 VARIABLES present,    \* entry name -> incarnation number (0 = absent)
-          wdT,        \* set of [fd, path, isDir]
+          wdT,        \* set of [fd, path, isDir, vn]  (vn: the vnode - incarnation - the descriptor was opened on; 0 for D)
           byUser,     \* set of spellings
           seen,       \* set of paths
           open,       \* descriptors opened by the backend
@@ -50,6 +60,7 @@ Init == /\ present = [n \in Names |-> IF n = "x" THEN 1 ELSE 0]
         /\ creates = {} /\ dup = FALSE /\ atAdd = {} /\ userAdded = {} /\ inc = 2 /\ steps = 0
 
 FdOf(p) == {r.fd : r \in {r \in wdT : r.path = p}}
+VnFds(v) == {r.fd : r \in {r \in wdT : r.vn = v /\ ~r.isDir}}     \* the descriptors open on vnode v
 Watching(p) == FdOf(p) # {}
 Existing == {n \in Names : present[n] > 0}
 
@@ -62,7 +73,7 @@ WatchAll(S, wd, op, nx) ==
            p == EntryPath(n)
            have == \E r \in wd : r.path = p IN
        IF have THEN WatchAll(S \ {n}, wd, op, nx)
-       ELSE WatchAll(S \ {n}, wd \cup {[fd |-> nx, path |-> p, isDir |-> FALSE]}, op \cup {nx}, nx + 1)
+       ELSE WatchAll(S \ {n}, wd \cup {[fd |-> nx, path |-> p, isDir |-> FALSE, vn |-> present[n]]}, op \cup {nx}, nx + 1)
 
 Tick == steps < MaxSteps /\ steps' = steps + 1
 
@@ -75,7 +86,7 @@ Add(sp) ==
           /\ byUser' = byUser \cup {"D/x"} /\ userAdded' = userAdded \cup {"D/x"}
           /\ UNCHANGED <<seen, atAdd, creates>>
      ELSE /\ LET hadD == Watching("D")
-                 wd1 == IF hadD THEN wdT ELSE wdT \cup {[fd |-> nextFd, path |-> "D", isDir |-> TRUE]}
+                 wd1 == IF hadD THEN wdT ELSE wdT \cup {[fd |-> nextFd, path |-> "D", isDir |-> TRUE, vn |-> 0]}
                  op1 == IF hadD THEN open ELSE open \cup {nextFd}
                  nx1 == IF hadD THEN nextFd ELSE nextFd + 1
                  r == IF hadD THEN [wd |-> wd1, open |-> op1, next |-> nx1] ELSE WatchAll(Existing, wd1, op1, nx1) IN   \* watchDirectoryFiles
@@ -125,11 +136,22 @@ FsCreate(n) == /\ Tick /\ present[n] = 0
 FsUnlink(n) == /\ Tick /\ present[n] > 0
                /\ present' = [present EXCEPT ![n] = 0]
                /\ LET r1 == Raise(notes, actq, FdOf("D"), "write")
-                      r2 == Raise(r1.notes, r1.actq, FdOf(EntryPath(n)), "delete") IN notes' = r2.notes /\ actq' = r2.actq
+                      r2 == Raise(r1.notes, r1.actq, VnFds(present[n]), "delete") IN notes' = r2.notes /\ actq' = r2.actq
                /\ UNCHANGED <<wdT, byUser, seen, open, nextFd, closed, kqOpen, creates, dup, atAdd, userAdded, inc>>
 FsWrite(n)  == /\ Tick /\ present[n] > 0
-               /\ LET r == Raise(notes, actq, FdOf(EntryPath(n)), "write") IN notes' = r.notes /\ actq' = r.actq
+               /\ LET r == Raise(notes, actq, VnFds(present[n]), "write") IN notes' = r.notes /\ actq' = r.actq
                /\ UNCHANGED <<present, wdT, byUser, seen, open, nextFd, closed, kqOpen, creates, dup, atAdd, userAdded, inc>>
+\* mv D/n D/m: the directory first, then the moved vnode (rename), then the vnode that lost its name (delete)
+FsRename(n, m) ==
+               /\ USER_RENAMES /\ Tick /\ n # m /\ present[n] > 0
+               /\ present' = [present EXCEPT ![m] = present[n], ![n] = 0]
+               /\ LET r1 == Raise(notes, actq, FdOf("D"), "write")
+                      r2 == Raise(r1.notes, r1.actq, VnFds(present[n]), "rename")
+                      r3 == IF present[m] > 0 THEN Raise(r2.notes, r2.actq, VnFds(present[m]), "delete") ELSE r2
+                  IN notes' = r3.notes /\ actq' = r3.actq
+               \* the vnode arriving under the name m is a new entry of D as far as C18 is concerned (even if it once had that name)
+               /\ creates' = creates \ {<<m, present[n]>>} /\ atAdd' = atAdd \ {<<m, present[n]>>}
+               /\ UNCHANGED <<wdT, byUser, seen, open, nextFd, closed, kqOpen, dup, userAdded, inc>>
 
 \* Reader: one kevent
 Handle ==
@@ -143,8 +165,9 @@ Handle ==
           IF "delete" \in fl \/ "rename" \in fl
           THEN \* Remove / Rename: w.remove(event.Name, false); markSeen(false); then the re-create check for files
                LET r == RemoveRows(row.path, wdT, open, byUser, seen, FALSE)
-                   n == IF row.path = "D/x" THEN "x" ELSE IF row.path = "D/y" THEN "y" ELSE ""
-                   back == n # "" /\ present[n] > 0                                   \* os.Lstat(path) succeeds: sendCreateIfNew
+                   n == IF \E q \in Names : EntryPath(q) = row.path THEN CHOOSE q \in Names : EntryPath(q) = row.path ELSE ""
+                   \* only after a Remove: os.Lstat(path) succeeds: sendCreateIfNew
+                   back == n # "" /\ ("delete" \in fl \/ RECHECK_ON_RENAME) /\ present[n] > 0
                    w2 == IF back THEN WatchAll({n}, r.wd, r.open, nextFd) ELSE [wd |-> r.wd, open |-> r.open, next |-> nextFd] IN
                /\ wdT' = w2.wd /\ open' = w2.open /\ nextFd' = w2.next /\ byUser' = r.byUser
                /\ seen' = IF back THEN r.seen \cup {row.path} ELSE r.seen
@@ -168,7 +191,8 @@ Handle ==
                /\ UNCHANGED <<wdT, byUser, seen, open, nextFd, creates, dup, userAdded>>
   /\ UNCHANGED <<present, closed, kqOpen, atAdd, inc, steps>>
 
-Next == (\E sp \in Spellings : Add(sp) \/ RemoveWatch(sp)) \/ Close \/ (\E n \in Names : FsCreate(n) \/ FsUnlink(n) \/ FsWrite(n)) \/ Handle
+Next == (\E sp \in Spellings : Add(sp) \/ RemoveWatch(sp)) \/ Close \/ (\E n \in Names : FsCreate(n) \/ FsUnlink(n) \/ FsWrite(n))
+        \/ (\E n, m \in Names : FsRename(n, m)) \/ Handle
 Spec == Init /\ [][Next]_vars
 
 ---------------------------------------------------------------------------
@@ -181,5 +205,7 @@ AllGone == (~closed /\ userAdded = {} /\ actq = <<>>) => (open = {} /\ wdT = {} 
 \* C17: Close releases every descriptor
 Released == closed => (open = {} /\ ~kqOpen)
 \* C18: Create exactly once per new entry, never for entries present when the directory was added
+\* C18: with the stream drained, every entry of the watched directory is covered: a descriptor on its current vnode under its current name
+Covered == (~closed /\ "D" \in userAdded /\ actq = <<>>) => \A n \in Existing : \E r \in wdT : r.path = EntryPath(n) /\ r.vn = present[n]
 CreateOnce == ~dup          \* dup: a Create was delivered a second time, or for an entry that existed when D was added
 =============================================================================
